@@ -856,6 +856,14 @@ CODECS_BY_PROFILE = {
 }
 
 
+# codecs with a concrete Lean state machine (Model/ConvertCodec.lean): the BYTES of the binary sink are compared
+MODELLED_CODECS = {"utf-8", "utf-16", "utf-16-le", "utf-16-be", "utf-32", "utf-8-sig", "latin-1"}
+
+
+def scalar_tree(tree) -> bool:
+    return all(not (0xD800 <= ord(ch) <= 0xDFFF) for s in tree_strings(tree) for ch in s)
+
+
 def representable(s: str, codec: str) -> bool:
     """The codec can represent the characters: the whole-string round trip is the identity (encoding alone is not
     enough: ISO-2022 codecs pass SO / SI / ESC through as bytes that the decoder reads as shift functions)."""
@@ -984,6 +992,13 @@ def eval_case(spec, la, strip: bool, codecs: List[str], want_model: bool = True,
                             {"op": "textraw", **inp}))
             text_runs[None] = (out, tree)
         else:
+            if codec in MODELLED_CODECS and want_model and only is None and scalar_tree(tree):
+                inp = {"spec": spec, "codec": codec, **cfg}
+                res.req.append((tree_line("textbin", tree, codec, "0"), "tie", out.hex() or "-",
+                                {"op": "textbin", **inp}))
+                if codec == "utf-32":
+                    res.req.append(("utf32dec " + (out.hex() or "-"), "spec", hexs(exp_text),
+                                    {"op": "utf32dec", **inp}))
             if not representable(exp_text, codec):
                 continue
             try:
@@ -996,8 +1011,9 @@ def eval_case(spec, la, strip: bool, codecs: List[str], want_model: bool = True,
     # ---- TextConverter constructed with showpageno (not reachable through high_level): text sink + one binary sink
     if only in (None, "text"):
         pn_codecs: List[Optional[str]] = [None]
-        for codec in codecs:
-            if None in text_runs and representable(spec_text_pn(text_runs[None][1], True), codec):
+        for codec in [c for c in codecs if c in MODELLED_CODECS] + list(codecs):
+            if codec in MODELLED_CODECS or (None in text_runs and
+                                            representable(spec_text_pn(text_runs[None][1], True), codec)):
                 pn_codecs.append(codec)
                 break
         pn_text: Optional[str] = None
@@ -1020,7 +1036,11 @@ def eval_case(spec, la, strip: bool, codecs: List[str], want_model: bool = True,
                 res.req.append((tree_line("textraw", tree, "1"), "spec",
                                 "boxes" if any(has_box(p) for p in tree) else hexs(out), {"op": "textraw", **inp}))
                 pn_text = out
-            elif representable(exp_text, codec):
+                continue
+            if codec in MODELLED_CODECS and want_model and only is None and scalar_tree(tree):
+                res.req.append((tree_line("textbin", tree, codec, "1"), "tie", out.hex() or "-",
+                                {"op": "textbin", "spec": spec, "codec": codec, **cfg, "showpageno": True}))
+            if representable(exp_text, codec):
                 try:
                     dec = out.decode(codec)
                 except UnicodeError as e:
@@ -1084,6 +1104,9 @@ def eval_case(spec, la, strip: bool, codecs: List[str], want_model: bool = True,
             chars = xml_text_sink = out
             xml_text_tree = tree
         else:
+            if codec in MODELLED_CODECS and want_model and only is None and scalar and not images:
+                res.req.append((tree_line("xmlbin", tree, codec, "s" if strip else "k"), "tie", out.hex() or "-",
+                                {"op": "xmlbin", "spec": spec, "codec": codec, **cfg}))
             try:
                 chars = out.decode(codec)
                 sf = "s" if strip else "k"
@@ -1446,6 +1469,10 @@ def flush_model(ctx: C.Ctx, results: List[CaseResult]) -> None:
         elif kind == "thm":
             ctx.disagree(inp["op"], inp, "theorem instance (Lean reader on the model output = skeleton)"
                          if inp["op"] == "xmlcheck" else "theorem instance " + inp["op"], got)
+        elif inp["op"] == "utf32dec":
+            ctx.fail(C.Failure("utf-32 binary sink read by the Lean decoder of C11_sink_utf32 is not the text of the "
+                               "layout tree", {k: v for k, v in inp.items() if k != "op"}, exp, got,
+                               {"stage": "sink", "otype": "text", "codec": "utf-32"}))
         elif inp["op"] in ("spectextpn", "textraw"):
             what = ("text output with showpageno differs from the Lean specification specTextPn of the layout tree"
                     if inp["op"] == "spectextpn" else
